@@ -12,7 +12,7 @@ CLAIMS = {
  "C18": ("Round-trip oracles in both directions over every exported wire codec: every length around each size bound is enumerated, rapid draws shaped and random contents and full-range messages, thorough adds native fuzzing. Exploration: a failing input is a counterexample, a pass is not a proof.",
          "An independent hand encoder for winbox chunking and encoding/binary for field layouts are trusted; field equality ignores non-serialised bookkeeping (digest pointers).",
          "property-based testing (rapid) + enumeration of lengths + fuzzing; round-trip oracle"),
- "C06": ("Metamorphic search over the prefix lattice of generated streams: every prefix of every stream is evaluated through the public matching path; oracles are zero network reads, verdict repeatability, an unchanged stream for later readers, monotonicity of 'no', and 'whole message matches => no proper prefix is rejected'. Exhaustive over split points per stream, sampled over streams.",
+ "C06": ("Metamorphic search over the prefix lattice of generated streams: every prefix of every stream is evaluated through the public matching path; oracles are zero network reads, verdict repeatability, an unchanged stream for later readers, monotonicity of 'no', and 'whole message matches => no proper prefix is rejected'. Exhaustive over split points per stream, sampled over streams. The same relation one level up: the real matchers behind the real router, one stream delivered whole and in generated fragmentations, must reach the same handler with the same bytes.",
          "A fresh Connection preloaded with the prefix (overlay export shim) stands for 'the bytes received so far'; the scripted underlying conn counts reads.",
          "property-based testing (rapid), metamorphic relation over all prefixes of each generated stream"),
  "C02": ("Bounded-exhaustive enumeration of route lists x streams x segmentations x end modes plus rapid-generated larger instances, each decided by a validity predicate over the recorded handler trace (route matched on the bytes available, order, no decided-matching route skipped, nothing after a terminal route, fallback exactly once with the stream intact, no fall-through or abandonment while a route is undecided). The small scope is complete for its bounds; beyond it the search is sampled.",
@@ -21,7 +21,7 @@ CLAIMS = {
  "C01": ("Model-based generated search: every case is a generated client stream, segmentation and route list whose expected per-handler byte ranges are computed by a reference consumer model; byte equality is required of every recorder, tee branch and echoed stream, through RouteList.Compile on scripted connections, behind real TLS termination and through Server.handle over loopback TCP. Sampled, not exhaustive.",
          "Harness recorder/take handlers and position-coded streams; crypto/tls as the client; the shipped tls, proxy_protocol, throttle, tee, subroute, echo handlers are under test together with Connection/Compile.",
          "property-based testing (rapid) against a reference consumer model"),
- "C10": ("Generated pool states and selection sequences (rapid, incl. a state machine with state changes between selections) plus an exhaustive sweep of availability vectors for small pools, judged against a reference availability set and the per-policy contracts (earliest, once-per-cycle, IP-stable under departures, fewest connections, membership).",
+ "C10": ("Generated pool states and selection sequences (rapid, incl. a state machine with state changes between selections) plus an exhaustive sweep of availability vectors for small pools, judged against a reference availability set and the per-policy contracts (earliest, once-per-cycle, IP-stable under departures, fewest connections, membership); pools provisioned by the proxy handler from generated configurations are judged by the documented meaning of their limits and defaults.",
          "Upstream/peer state is constructed through an overlay-injected export shim in package l4proxy; random policies are judged on membership only, over repeated draws.",
          "property-based testing (rapid, stateful) + exhaustive availability vectors; reference-model oracle"),
  "C12": ("Generated PROXY v1/v2 headers from an independent encoder pushed through the handler with generated segmentation and allow lists; a recorder, ip matchers and placeholders behind it are compared with the declared (or real) addresses and the payload; the sending side is parsed by an independent parser on a loopback upstream, including the sender->receiver composition. Every header split point is enumerated for fixed addresses.",
@@ -42,16 +42,16 @@ CLAIMS = {
  "C13": ("Generated batches of mixed connections, consumer timings and close instants against the public listener-wrapper API on loopback sockets; each connection's fate (delivered once with its exact unconsumed stream and TLS state, or never delivered and closed), Accept's behaviour after Close and the absence of left-over listener goroutines are checked.",
          "Real sockets and scheduler; harness matchers/handlers select the fate of a connection from its first byte; goroutine leaks are detected by scanning runtime.Stack for layer4.(*listener) frames.",
          "property-based testing (rapid) over connection mixes and schedules; per-connection reference outcome"),
- "C08": ("Generated batches of simultaneous tagged connections through one shared configuration (all handlers and policies that keep shared state) on real loopback sockets at several GOMAXPROCS values, each connection compared with what it would get alone; the same workloads under the Go race detector, where any report with a caddy-l4 frame counts. Interleavings are sampled.",
+ "C08": ("Generated batches of simultaneous tagged connections through one shared configuration (all handlers and policies that keep shared state) on real loopback sockets at several GOMAXPROCS values, each connection compared with what it would get alone; the same workloads under the Go race detector, where any report with a caddy-l4 frame counts; likewise batches of simultaneous UDP clients on the servePacket loop, each of which may only ever be sent bytes of its own stream. Interleavings are sampled.",
          "The Go race detector (happens-before, only executed accesses) and the OS scheduler; tags in position-coded streams make cross-talk visible at a computable offset.",
          "property-based testing (rapid) of concurrent batches + dynamic race detection"),
  "C03": ("Generated payloads, chunkings, finish orders (who half-closes first, data after the other side's EOF), peer counts, transports and reset faults through the real proxy handler on loopback TCP / Unix sockets / TLS; every peer and the client are compared byte for byte with what was sent, end-of-stream, handler return, upstream close and file-descriptor restoration are observed with bounded waits.",
          "Kernel sockets and crypto/tls as transports; disjoint byte alphabets per peer to separate the interleaved client-side stream; bounded waits (10 s) stand for 'eventually'.",
          "property-based testing (rapid) with generated fault injection; exact-stream oracle"),
- "C11": ("Generated settings and histories (connects, sleeps, outages and recoveries, held connections) executed in real time against the proxy handler with loopback listeners that refuse or accept; a model of remembered failure times, retry-window bounds, active-check convergence and connection-limit occupancy is compared with outcomes and peer counters, away from window edges.",
-         "Real clock (guard band 80 ms around window edges, slack >= 1 s on upper bounds); peer counters through an overlay shim; a closed loopback port as an upstream that is down.",
+ "C11": ("Generated settings and histories (connects, sleeps, outages and recoveries, held connections) executed in real time against the proxy handler with loopback listeners that refuse or accept; a model of remembered failure times, retry-window bounds, active-check convergence and connection-limit occupancy is compared with outcomes and peer counters: 'too early' verdicts from interval bounds that load cannot falsify, 'too late' verdicts re-examined with patience and dropped when a stall monitor saw the process itself held up.",
+         "Real clock (each remembered failure carries the interval in which it was counted; 2-3 s patience on lateness); peer counters through an overlay shim; a closed loopback port as an upstream that is down.",
          "property-based testing (rapid) over histories with fault injection; reference model of failure windows and limits"),
- "C07": ("Differential testing against crypto/tls: ClientHellos produced by real TLS clients under generated configurations (and byte-level mutations that crypto/tls still accepts) are given both to the module's parser/matcher and to Go's TLS server, whose ClientHelloInfo is the reference for server name, ALPN, versions, cipher suites, curves, points and signature schemes, for sni/alpn routing verdicts and for the placeholders.",
+ "C07": ("Differential testing against crypto/tls: ClientHellos produced by real TLS clients under generated configurations (and byte-level mutations that crypto/tls still accepts) are given both to the module's parser/matcher and to Go's TLS server, whose ClientHelloInfo is the reference for server name, ALPN, versions, cipher suites, curves, points and signature schemes, for sni/alpn routing verdicts and for the placeholders; several hellos matched at the same time by one matcher instance must each get their own answer.",
          "crypto/tls (client as generator, server as reference) of the toolchain in use; caddytls' own sni matcher and the module's alpn matcher evaluated on the reference info; parseRawClientHello reached through an overlay export shim.",
          "property-based testing (rapid); differential oracle (crypto/tls server)"),
  "C15": ("Grammar-based generation of configurations with two independent printers (Caddyfile text, expected JSON) compared through the real caddyfile adapter; determinism of adapting, provisioning of the adapted JSON and the JSON load/serialise round trip are checked on the same configurations.",
